@@ -260,6 +260,16 @@ func nativeValidate(prog *Program, mod, pkg string, results []*HarnessResult, ti
 				}
 			} else {
 				r.WitnessBad = append(r.WitnessBad, fmt.Sprintf("%s: native status=%s label=%s obs=%v want obs=%v msg=%s", w.Label, nres.Status, nres.Label, nres.Obs, w.Obs, firstLine(nres.Msg)))
+				if (nres.Status == "assert" || nres.Status == "panic") && !r.Spec.NoisyNative {
+					// The real code (real HPKE, real transports) fails the harness on an input for which
+					// the engine - through one of its models - saw the property hold, in every one of the
+					// native runs of this witness: a concrete failing input against the real build.
+					kind, label := "assert", nres.Label
+					if nres.Status == "panic" {
+						kind, label = "panic", "native panic on a witness path"
+					}
+					r.Confirmed = append(r.Confirmed, &Violation{Harness: r.Spec.Name, Kind: kind, Label: label, Msg: "native replay of a witness path fails where the engine's model passed: " + firstLine(nres.Msg), Nondet: w.Nondet, Replayed: true, NativeOut: nres.Status + ":" + nres.Label + " " + nres.Msg})
+				}
 			}
 		}
 		for i, v := range r.Violations {
